@@ -609,6 +609,8 @@ def rule_coriolis(chk, prog):
 
 
 def run(chk, prog, tier):
+  from rules import c01 as _c01
+  _c01.rule_shared_state(chk, prog, rule='C05.5-shared-arrays-never-updated-in-place')
   rule_inventory(chk, prog)
   rule_terms(chk, prog)
   rule_diagnostic(chk, prog)
